@@ -110,8 +110,13 @@ class ModelGroup:
                     attrs={"units": "s"},
                 )
 
-                # Get current Dataset
-                ds: xr.Dataset = detector.to_xarray().assign_coords(time=absolute_time)
+                # Get a copy of the current Dataset (the arrays of the detector may be
+                # modified in place by the next models)
+                ds: xr.Dataset = (
+                    detector.to_xarray()
+                    .copy(deep=True)
+                    .assign_coords(time=absolute_time)
+                )
 
                 # TODO: Fix this dirty hack
                 if detector._intermediate is None:
